@@ -334,6 +334,7 @@ DEFAULT_TLS_SPEC = dict(
     after_sh=None,         # None | int: length of a message body following SH in the same record when sh_ext == none
     hs_secrets=True, ccs13=True, pad13=0, tickets=0, cert_len=300, ske=False,
     history=[[0, 20, 0], [1, 40, 0]],   # [dir (0 client, 1 server), plaintext length, padding amount]
+    half_rtt=None,         # [[len, pad], ...] TLS 1.3: server application records right after the server Finished, before the client's (0.5-RTT)
     false_start=None,      # [[len, pad], ...] client application records sent right after the client Finished (full handshake, <= TLS 1.2)
     close=0,               # bit 0: client ends with close_notify, bit 1: server does (after all application data of both directions)
     abort_after_ch=None,   # None | [is_server, level, desc]: the handshake is aborted by a plaintext alert right after the ClientHello
@@ -521,6 +522,9 @@ class TlsConn:
         for t, m in _frag(msgs, self.grouping, sp.get("hs_frag", 0)):
             self._enc(True, sw.protect(0x16, m, self.pad13), t)
         sw.set_secret(sec["sap"])
+        for ln, pad in sp.get("half_rtt") or []:
+            # RFC 8446 4.4.4: the server may send application data right after its Finished, before it has the client's ("0.5-RTT data")
+            self.app(True, rbytes(rnd, ln), pad)
         if sp["ccs13"]:
             self._plain(False, 0x14, b"\x01", rv, "CCS")
         self._enc(False, cw.protect(0x16, hs(20, rbytes(rnd, hl)), self.pad13), "FIN")
